@@ -21,7 +21,8 @@ import vlib
 
 THEOREMS = ["Yardl.C19.common_symm", "Yardl.C19.common_idem", "Yardl.C19.binop_type_symm",
             "Yardl.C19.small_ints_promote", "Yardl.C19.pow_never_integer", "Yardl.C19.binop_numeric",
-            "Yardl.C19.parentheses_correct", "Yardl.C19.fixed_width_evaluation_is_exact"]
+            "Yardl.C19.parentheses_correct", "Yardl.C19.fixed_width_evaluation_is_exact",
+            "Yardl.C19.literal_fits_its_type", "Yardl.C19.literal_type_is_the_narrowest", "Yardl.C19.literal_refused_iff_out_of_64_bits"]
 NUMERIC = ["int8", "int16", "int32", "int64", "uint8", "uint16", "uint32", "uint64", "size", "float32", "float64",
            "complexfloat32", "complexfloat64"]
 OPS = {"add": "+", "sub": "-", "mul": "*", "div": "/", "pow": "**"}
@@ -85,6 +86,7 @@ def run(report, tier, seed):
         _narrow_operands(report, sc, ybin)
         _conversions(report, sc, ybin)
         _directed_semantics(report, sc, ybin)
+        _literal_types(report, sc, ybin, lean, rng, quick)
         _wide_operands(report, sc, ybin, lean, seed)
         lean.close()
 
@@ -588,6 +590,80 @@ def _directed_semantics(report, sc, ybin):
             if got != want:
                 report.violation(f"emission:value-differs:{tgt}:directed-semantics", {"field": n, "source": e.strip(), "env": {"f": 2.75, "i": 5}, "reference": want, "got": got},
                                  f"generated {tgt} computes a different value")
+
+
+def _literal_types(report, sc, ybin, lean, rng, quick):
+    """a computed field that is an integer literal: the type the front end gives it is the return type of the generated C++ method, its value what C++
+    and Python return. Reference: `litType` (narrowest type of the literal's signedness that holds it; refused outside 64 bits), at every edge of every width
+    and at random points of every band"""
+    edges = []
+    for b in (8, 16, 32, 64):
+        edges += [2 ** b - 1, 2 ** b, 2 ** b - 2, -(2 ** (b - 1)), -(2 ** (b - 1)) - 1, -(2 ** (b - 1)) + 1, -(2 ** b) + 1, -(2 ** b), 2 ** (b - 1) - 1, 2 ** (b - 1)]
+    lits = sorted(set(edges + [0, 1, -1, 200, -200, -255, 40000, -40000, -65535, 3000000000, -3000000000, -4294967295, 10 ** 19, -(10 ** 19)]
+                      + [s_ * rng.randrange(2 ** lo, 2 ** hi) for lo, hi in ((0, 7), (7, 8), (8, 15), (15, 16), (16, 31), (31, 32), (32, 63), (63, 64)) for s_ in (1, -1)
+                         for _ in range(1 if quick else 6)]))
+    want = {}
+    for n in lits:
+        r = lean.ask({"op": "lit_type", "n": n})
+        want[n] = None if r.get("rejected") else (("int" if r["signed"] else "uint") + str(r["bits"]))
+    name = lambda n: ("neg" if n < 0 else "pos") + "".join(chr(97 + int(ch)) for ch in str(abs(n)))     # digits as letters: one word in every target's spelling
+    ok_lits = [n for n in lits if want[n] is not None]
+    d = sc.path("lits", "m")
+    os.makedirs(d, exist_ok=True)
+    man = ["namespace: Lt", "python:", "  outputDir: ../py", "cpp:", "  sourcesOutputDir: ../cpp", "  generateCMakeLists: false", "  generateHDF5: false",
+           "  generateNDJson: false", "  overrideArrayHeader: vf_ndarray.h"]
+    open(os.path.join(d, "_package.yml"), "w").write("\n".join(man) + "\n")
+    # each refused literal alone: the package must be rejected for it
+    for n in [x for x in lits if want[x] is None]:
+        open(os.path.join(d, "model.yml"), "w").write(f"R: !record\n  fields:\n    i: int\n  computedFields:\n    c: {n}\n")
+        rc, out, err = vlib.yardl(ybin, d, "validate")
+        report.case(distinct_key=("literal-refused", n))
+        report.count("literals.refused")
+        if rc == 0 or "too large" not in err:
+            report.violation("literal:accepted-outside-64-bits", {"literal": n, "rc": rc, "stderr": err[-400:]}, "an integer literal that no 64-bit type holds is not refused")
+    lines = ["R: !record", "  fields:", "    i: int", "  computedFields:"] + [f"    {name(n)}: {n}" for n in ok_lits]
+    # the literal as a case of a switch and next to a narrow operand keeps its own type or the common one
+    open(os.path.join(d, "model.yml"), "w").write("\n".join(lines) + "\n")
+    rc, out, err = vlib.yardl(ybin, d, "generate")
+    if rc != 0:
+        report.violation("literal:model-rejected", {"error": err[-800:], "literals": ok_lits}, "")
+        return
+    root = os.path.dirname(d)
+    from formatting_shim import to_pascal
+    th = open(os.path.join(root, "cpp", "types.h")).read()
+    cpp_ty = {"int8": "int8_t", "int16": "int16_t", "int32": "int32_t", "int64": "int64_t", "uint8": "uint8_t", "uint16": "uint16_t", "uint32": "uint32_t", "uint64": "uint64_t"}
+    for n in ok_lits:
+        m = re.search(r"^\s*([A-Za-z0-9_:]+) %s\(\) const" % re.escape(to_pascal(name(n))), th, re.M)
+        report.case(distinct_key=("literal-type", n), sample={"literal": n, "type": want[n]} if n in (-200, 256) else None)
+        report.count("literals.typed")
+        if not m or m.group(1) != cpp_ty[want[n]]:
+            report.violation("literal:type-differs", {"literal": n, "model_type": want[n], "cpp_return_type": m.group(1) if m else None},
+                             "the type given to an integer literal is not the narrowest type of its signedness that holds it")
+    main = ['#include <iostream>', '#include "types.h"', "int main() { lt::R r; r.i = 5;"]
+    for n in ok_lits:
+        main.append('  std::cout << "%s=" << (%s)(r.%s()) << "\\n";' % (name(n), "long long" if n < 0 else "unsigned long long", to_pascal(name(n))))
+    main.append("}")
+    cppdir = os.path.join(root, "cpp")
+    open(os.path.join(cppdir, "lt_main.cc"), "w").write("\n".join(main))
+    exe = os.path.join(root, "ltmain")
+    pc = vlib.run(["g++", "-std=c++17", "-O0", "-w", "-I", os.path.join(vlib.HARNESS, "cpp"), "-I", cppdir, os.path.join(cppdir, "lt_main.cc"), os.path.join(cppdir, "types.cc"), "-o", exe], timeout=600)
+    cpp = {}
+    if pc.returncode == 0:
+        for line in subprocess.run([exe], stdout=subprocess.PIPE, timeout=60).stdout.decode().splitlines():
+            k2, v2 = line.split("=")
+            cpp[k2] = int(v2)
+    else:
+        report.violation("literal:cpp-does-not-compile", {"log": (pc.stderr or b"").decode(errors="replace")[-1500:] if isinstance(pc.stderr, bytes) else str(pc.stderr)[-1500:]}, "")
+    script = ("import sys, json\nsys.path.insert(0, %r)\nimport lt\nr = lt.R(i=5)\nprint(json.dumps({n: int(getattr(r, n)()) for n in %r}))\n"
+              % (os.path.join(root, "py"), [vlib.to_snake(name(n)) for n in ok_lits]))
+    p = subprocess.run(["python3-vt", "-W", "ignore", "-c", script], stdout=subprocess.PIPE, stderr=subprocess.PIPE, timeout=120)
+    py = json.loads(p.stdout) if p.returncode == 0 else {}
+    for n in ok_lits:
+        for tgt, got in (("cpp", cpp.get(name(n))), ("python", py.get(vlib.to_snake(name(n))))):
+            report.case(distinct_key=("literal-value", n, tgt))
+            report.count(f"literals.value.{tgt}")
+            if got != n:
+                report.violation(f"emission:value-differs:{tgt}:literal", {"literal": n, "model_type": want[n], "got": got}, f"generated {tgt} returns another value for an integer literal")
 
 
 def _narrow_operands(report, sc, ybin):
